@@ -270,6 +270,13 @@ B("loss path cancels the PUBREL alarms without clearing them", ["C13", "C04", "C
   {"C13": ["H-FIRED"], "C04": ["K3"], "C11": ["X-REACH"], "C14": ["M-LOSS-IDLE"]})
 B("setBandwith drops its factor", ["C20"], [(PS, "        self._factor   = factor\n", "")], {"C20": ["G-STORE"]})
 B("unsubscribe() no longer refuses a topic argument of the wrong type", ["C20"], [(PS, "            raise MQTTWindowError(\"unsubscription requests exceeded limit\", self._window)\n        if not isinstance(request.topics, list):\n            raise TopicTypeError(type(request.topics))", "            raise MQTTWindowError(\"unsubscription requests exceeded limit\", self._window)")], {"C20": ["G-TYPE"]})
+B("purge deletes the entry before it looks it up", ["C11", "C12", "C13"],
+  [(PS, "            request = self.factory.windowPubRelease[self.addr][k]\n            del self.factory.windowPubRelease[self.addr][k]\n", "            del self.factory.windowPubRelease[self.addr][k]\n            request = self.factory.windowPubRelease[self.addr][k]\n")], None)
+B("SUBSCRIBE repeats never get DUP under 3.1", ["C08"], [(PS, "        if self._version == v31:\n            request.encoded[0] |=  (dup << 3)   # set the dup flag\n        interval = request.interval() + 0.25*len(self.factory.windowSubscribe[self.addr])", "        if False:\n            request.encoded[0] |=  (dup << 3)   # set the dup flag\n        interval = request.interval() + 0.25*len(self.factory.windowSubscribe[self.addr])")], {"C08": ["R-DUP"]})
+B("onPublish called without testing that a handler is set", ["C16"], [(PS, "        if self.onPublish:\n            self.onPublish(", "        if True:\n            self.onPublish(")], {"C16": ["E3"]})
+N("onPublish tested with is not None", ["C16", "C06"], [(PS, "        if self.onPublish:\n            self.onPublish(", "        if self.onPublish is not None:\n            self.onPublish(")])
+B("setWindowSize refills the window in any state", ["C14", "C18"], [(BASE, "        self._window = min(n, self.MAX_WINDOW)\n", "        self._window = min(n, self.MAX_WINDOW)\n        if hasattr(self, '_refillPublish'):\n            self._refillPublish(dup=False)\n")], None)
+B("refused CONNACK leaves the connect deadline armed", ["C16", "C04"], [(BASE, "        request.alarm.cancel()\n        if response.resultCode == 0:\n", "        if response.resultCode == 0:\n            request.alarm.cancel()\n")], {"C16": ["E3"], "C04": ["K2"]})
 # ---------------------------------------------------------------- C10
 B("popleft -> pop", ["C10"], [(PS, "            request = self.factory.queuePublishTx[cnx].popleft()", "            request = self.factory.queuePublishTx[cnx].pop()")], {"C10": ["W-FIFO"]})
 B("refill guard <=", ["C10"], [(PS, "len(self.factory.windowPublish[cnx]) < self._window:", "len(self.factory.windowPublish[cnx]) <= self._window:")], {"C10": ["W-BOUND"]})
